@@ -334,6 +334,28 @@ pub fn run(reg: &dyn Registry, ctx: &Ctx) -> Outcome {
         ctx.add("test_timer_executions", positions.len() as u64 * kinds.len() as u64 + 1);
         ctx.add("states", 1);
     }
+    // test_timer in the middle of a stream (a half pending across it; twice in a row; after set_rounds)
+    {
+        let rd = jitter_env::raw_readings(ctx.seed ^ 0x78, 2 * 1601 + 400);
+        for ops in [
+            vec![Op::SetRounds(2), Op::U32, Op::TestTimer, Op::U32, Op::U64],
+            vec![Op::SetRounds(1), Op::U64, Op::TestTimer, Op::TestTimer, Op::U32, Op::U32],
+            vec![Op::SetRounds(3), Op::U32, Op::TestTimer, Op::Fill(9), Op::TimerStats(true), Op::U32],
+            vec![Op::TestTimer, Op::TestTimer, Op::SetRounds(1), Op::U64],
+            vec![Op::SetRounds(1), Op::Fill(3), Op::TimerStats(false), Op::TestTimer, Op::U32],
+        ] {
+            compare(ctx, reg, "C12", &rd, &ops, &[], &mut tot);
+            ctx.add("states", 1);
+            // one deviation inside / right after the test_timer call(s)
+            for pos in (0..rd.len().min(3300)).step_by(if thorough { 7 } else { 101 }) {
+                for &k in [Dev::Repeat3, Dev::SameDelta, Dev::Jump31, Dev::ProbePlus32, Dev::BackFar].iter() {
+                    let devs = [(pos, k)];
+                    let r = deviate(&rd, &devs);
+                    compare(ctx, reg, "C12", &r, &ops, &devs, &mut tot);
+                }
+            }
+        }
+    }
     ctx.set("executions", tot.executions);
     ctx.set("transitions", tot.transitions);
     ctx.set("executions_did_not_return_within_horizon", tot.horizon);
